@@ -193,9 +193,12 @@ def _make(rng, fam, packed=False):
     names = list(gen.NAMES)
     rng.shuffle(names)
     descr = [gen.field_descr(rng, names[i], [k], byteorders=(bo,), maxsub=2) for i, k in enumerate(kinds)]
+    if not packed and rng.random() < .12:
+        # field titles (numpy lists a titled field under its name and under its title)
+        descr = [((("Title of %s" % d[0]), d[0]),) + tuple(d[1:]) if rng.random() < .6 else d for d in descr]
     a = np.zeros(shape, dtype=descr)
     gen.fill(rng, a)
-    if not packed and rng.random() < .2:
+    if not packed and rng.random() < .2 and not any(isinstance(d[0], tuple) for d in descr):
         # the same fields in a layout that is not packed: aligned (padding between fields), or a multi-field index of
         # a wider table (a view that keeps the parent's offsets and item size)
         if rng.random() < .5 or len(a.dtype.names) < 2:
